@@ -473,7 +473,10 @@ func c09FieldRole(named *types.Named, role string) string {
 			return ok && c09IsSetType(m.Elem())
 		}
 	case "oci.Store.tagResolver", "oci.ReadOnlyStore.tagResolver":
-		pred = func(t types.Type) bool { _, isPtr := t.(*types.Pointer); return isPtr && isNamed(t, "resolver", "Memory") }
+		pred = func(t types.Type) bool {
+			_, isPtr := t.(*types.Pointer)
+			return isPtr && isNamed(t, "resolver", "Memory")
+		}
 	case "oci.Store.graph", "oci.ReadOnlyStore.graph":
 		pred = func(t types.Type) bool { _, isPtr := t.(*types.Pointer); return isPtr && isNamed(t, "graph", "Memory") }
 	case "oci.Store.index":
